@@ -16,6 +16,11 @@ CLAIMED = {
             "Every save point of every explored history (play, flow switch, path jump; inside functions/tunnels, with live threads, pending fallback choices, several flows, lists, RANDOM/shuffle state) of every pool and small corpus program: immediate observation incl. canonical re-save and all continuations up to the depth bound must be equal between the original and the restored story. Exhaustive within bounds.",
             "Trusted: observation function + canonicalisation (choice `index` cache dropped, observer order across variables normalised). Error states are not save points (errors are not part of a save by design). Programs with hash-order-dependent output are excluded (C03).",
             "DESIGN.md §5 C02"),
+    "C14": ("exploration",
+            "bounded exhaustive enumeration of story documents (corpus reference JSON, this compiler's output, hostile strings of length <= 2 over a 10-character alphabet injected at every text position, each in several serialisations) loaded by both loaders in one process (content trees compared) and played by both feature builds in separate processes (transcripts compared)",
+            "Every document: both loader entry points must accept it and build identical content trees and versions (a document only one loader accepts is a disagreement), and the binary built with stream-json-parser must play it (all choice paths, depth 6) exactly like the default build. Serialisations: as emitted, every non-ASCII character as \\uXXXX with surrogate pairs, pretty-printed with spaces/tabs/CRLF, alternative float spellings.",
+            "Trusted: the crate's container writer used to compare the two trees; top-level key order is kept as emitted (reordering is outside the enumerated space).",
+            "DESIGN.md §5 C14"),
     "C16": ("model_checking",
             "explicit-state exploration of host-call histories with evaluate_function injected at every tree node; bounded bisimulation against the uninjected history; results compared with hand-computed expectations",
             "Every node of the history tree (mid-paragraph, at choice points, at the end, in a named flow, after a load-into-self, after a path jump) x every designated pure function x {once, twice} + refused calls: result as the Ink rules give it, repeatable, and the story's later behaviour (incl. path jumps that keep the call stack) unchanged apart from function visit counts.",
